@@ -17,7 +17,7 @@ BO_KEY = "byteorder-native"
 
 CFG = dict(
     imports=["From Verif.C33 Require Import Model ArithModel Spec.", "From VerifGen Require Import Gen."],
-    n=dict(quick=100, thorough=6000),
+    n=dict(quick=100, thorough=1200),
     big=dict(quick=2, thorough=60),
     rule="(a) table-size cases: BPFMaglevMaxEndpointsPerService set through Felix's own parameter validation "
          "(boundary values, out-of-range values, random values; thorough tier: every value -2..3005), BPFLUTSizeMaglev() observed; "
